@@ -329,6 +329,7 @@ func mapKeys(m map[string]interface{}) []string {
 }
 
 func runC07(x *X) {
+	runC07FromCallback(x)
 	// (a) row-kind words
 	maxw := x.Pick(7, 8)
 	x.Explore("row-words", ExploreOpts{ShardDepth: 2, Bound: fmt.Sprintf("all words over {O object row, S separator, Z zero-cell row, P short row, L the zero value &Row{}} of length <=%d", maxw)}, func(c *Chooser) {
